@@ -231,6 +231,32 @@ def run_case(case):
             if hasattr(obj, "create_adjacency_matrix"):
                 events.append(ev("roundtrip/adjacency-%s" % how, bool(np.array_equal(np.asarray(back.create_adjacency_matrix()), np.asarray(obj.create_adjacency_matrix()))),
                                  key=key + "/roundtrip-adjacency", variant=vname))
+    # ---- equality must see every attribute: objects that differ in one attribute are different objects, and when lattices are
+    # used as static (hashed) arguments of a jitted function each one gets its own trace
+    others = [o for (v, o) in variants if v == "non-default"]
+    if case["cls"] == "tri":
+        flipped = dict(case)
+        flipped["open"] = not case["open"]
+        try:
+            others.append(construct(flipped))
+        except Exception:
+            pass
+    for other in others:
+        differs = [f.name for f in dataclasses.fields(lat) if getattr(lat, f.name) != getattr(other, f.name)]
+        if differs:
+            events.append(ev("equality/distinguishes-attributes", bool(lat != other and not (lat == other)), key=key + "/eq-distinguishes", differing=differs))
+            if hasattr(lat, "create_adjacency_matrix"):
+                try:
+                    def _adj_at_trace_time(l_):
+                        with jax.ensure_compile_time_eval():   # the lattice is static: its graph is a compile-time constant of the trace
+                            return jax.numpy.asarray(np.asarray(l_.create_adjacency_matrix()))
+
+                    f_static = jax.jit(_adj_at_trace_time, static_argnums=0)
+                    a1, a2 = np.asarray(f_static(lat)), np.asarray(f_static(other))
+                    ok = np.array_equal(a1, np.asarray(lat.create_adjacency_matrix())) and np.array_equal(a2, np.asarray(other.create_adjacency_matrix()))
+                    events.append(ev("equality/static-jit-argument-keeps-lattices-apart", bool(ok), key=key + "/static-jit", differing=differs))
+                except Exception as exc:
+                    events.append(ev("equality/static-jit-argument", None, key="C20/skip-static-jit", exc=repr(exc)[:160]))
     return {"events": events, "nontrivial": n >= 2,
             "sample": {"cls": case["cls"], "dims": dims, "open": case["open"], "n_sites": n, "degrees": sorted(set(deg.tolist()))},
             "counters": cnt}
